@@ -5,7 +5,7 @@
   finite depth, also inside the operands of set operators and the bodies of inline tables.  Property theorems only.
 
   The device: the parsers and round-trip theorems of the levels below are used AS THEY ARE (they hold for every atom
-  code); a query with sub-queries is a skeleton whose atoms `8 i + 2` stand for its sub-queries, `printN` writes
+  code); a query with sub-queries is a skeleton whose atoms `16 i + 2` stand for its sub-queries, `printN` writes
   `( text )` for them, `parseN (n + 1)` folds them back with `parseN n` and hands the skeleton to `Query.parseWhole`.
   `nested_query_print_parse` is proved for level n by induction on n with `query_print_parse` as the step.
 
@@ -14,8 +14,9 @@
   behind an atom / as a call name / qualifier, each text starting with SELECT or WITH, every other `( SELECT` of the
   skeleton behind a set operator / AS / at the start, parentheses balanced.  That `good` holds for EVERY placement the
   grammar allows is NOT proved (it is evaluated on the examples below and on every case of stream op c18.nq).
-  `x [NOT] IN ( sub-query )` is in the fragment too (atoms `8 i + 6`, standing for the text between IN's parentheses).
-  Still by correspondence only: EXISTS, ANY / ALL, a sub-query whose text starts with `(`, parenthesised tables, LATERAL,
+  `x [NOT] IN ( sub-query )` is in the fragment too (atoms `8 i + 6`, standing for the text between IN's parentheses), and
+  `EXISTS ( sub-query )` (atoms `16 i + 10`, standing for the keyword, the parentheses and the text).
+  Still by correspondence only: ANY / ALL, a sub-query whose text starts with `(`, parenthesised tables, LATERAL,
   CASE, FETCH, INTO.
 -/
 import Csvq.Lemmas.SubQuery
@@ -78,19 +79,27 @@ theorem gen_subquery_printer_matches_model :
     node_RowValue.parts = [⟨"", "return", "e.Value.String()", ["Value"], []⟩] ∧
     (∀ (i : Nat) (ts p : List (Tok Csvq.Gen.Precedence.Term)) ps,
       expand (.atom (subCode i) :: ts) (p :: ps) = .lpar :: (p ++ .rpar :: expand ts ps)) ∧
+    emitted node_Exists = [("", "keyword(EXISTS)"), ("", "e.Query.String()")] ∧
+    (∀ (i : Nat) (ts p : List (Tok Csvq.Gen.Precedence.Term)) ps,
+      expand (.atom (exCode i) :: ts) (p :: ps) = .lit existsLit :: .lpar :: (p ++ .rpar :: expand ts ps)) ∧
     -- `x IN ( atom )` with the atom of an IN sub-query: IN's parentheses are those of Subquery.String()
     (∀ (i : Nat) (ts p : List (Tok Csvq.Gen.Precedence.Term)) ps,
       expand (.lpar :: .atom (inCode i) :: .rpar :: ts) (p :: ps) = .lpar :: (p ++ .rpar :: expand ts ps)) ∧
     (∀ (tbl : Table Csvq.Gen.Precedence.Term) skel q r, printN tbl (.mk skel (.cons q r)) =
       expand (printQuery tbl skel) (printN tbl q :: printNs tbl r)) := by
-  refine ⟨by decide, by decide, by decide, by decide, ?_, ?_, ?_⟩
+  refine ⟨by decide, by decide, by decide, by decide, ?_, by decide, ?_, ?_, ?_⟩
   · intro i ts p ps
     have : isSubCode (subCode i) = true := by simp [isSubCode, subCode]
     simp [expand, this]
   · intro i ts p ps
-    have h1 : isSubCode (inCode i) = false := by simp [isSubCode, inCode]
-    have h2 : isInCode (inCode i) = true := by simp [isInCode, inCode]
+    have h1 : isSubCode (exCode i) = false := decide_eq_false (by show ¬ (16 * i + 10) % 16 = 2; omega)
+    have h2 : isExCode (exCode i) = true := by simp [isExCode, exCode]
     simp [expand, h1, h2]
+  · intro i ts p ps
+    have h1 : isSubCode (inCode i) = false := decide_eq_false (by show ¬ (8 * i + 6) % 16 = 2; omega)
+    have h0 : isExCode (inCode i) = false := decide_eq_false (by show ¬ (8 * i + 6) % 16 = 10; omega)
+    have h2 : isInCode (inCode i) = true := by simp [isInCode, inCode]
+    simp [expand, h1, h0, h2]
   · intros; simp [printN, printNs]
 
 /-! ## non-vacuity -/
@@ -150,6 +159,19 @@ example : printN genTable qIn =
      .sym .AND 0, .atom 4, .sym .IN 0, .lpar, .lpar, .kw .select, .atom 1, .rpar, .kw .comma, .atom 3, .rpar] := by decide
 example : parseNWhole genTable genLv 3 (printN genTable qIn) = some qIn := by decide
 example : good genTable.inn none false 0 0 (printQuery genTable (match qIn with | .mk s _ => s)) (printNs genTable (match qIn with | .mk _ s => s)) = true := by decide
+-- EXISTS ( sub-query ) is one value: NOT EXISTS (…) AND EXISTS (…) = 1
+private def qEx : NQ Term :=
+  .mk (qOf (selW (.atom 1) (some (0, none)) (some (.bin (.pre .NOT 0 (.atom (exCode 0))) .AND 0 (.bin (.atom (exCode 1)) .COMPARISON_OP 0 (.atom 5))))))
+    (.cons q2 (.cons qIn .nil))
+example : (printN genTable qEx).take 12 =
+    [.kw .select, .atom 1, .kw .from, .atom 0, .kw .where, .sym .NOT 0, .lit existsLit, .lpar, .kw .select, .lpar, .kw .select, .atom 1] := by decide
+example : parseNWhole genTable genLv 4 (printN genTable qEx) = some qEx ∧ depthN qEx = 4 := by decide
+example : good genTable.inn none false 0 0 (printQuery genTable (match qEx with | .mk s _ => s)) (printNs genTable (match qEx with | .mk _ s => s)) = true := by decide
+-- EXISTS needs its sub-query; a sub-query is not a name
+example : parseNWhole genTable genLv 3 [.kw .select, .lit existsLit, .lpar, .atom 1, .rpar] = none ∧
+    parseNWhole genTable genLv 3 [.kw .select, .lit existsLit] = none ∧
+    parseNWhole genTable genLv 3 [.kw .select, .atom 1, .kw .as, .lit existsLit, .lpar, .kw .select, .atom 1, .rpar] = none ∧
+    parseNWhole genTable genLv 3 [.kw .select, .atom 1, .kw .from, .atom 2, .lpar, .kw .select, .atom 1, .rpar] = none := by decide
 -- not a query: an unclosed sub-query, a sub-query directly behind a value, an empty sub-query
 example : parseNWhole genTable genLv 3 [.kw .select, .lpar, .kw .select, .atom 1] = none ∧
     parseNWhole genTable genLv 3 [.kw .select, .atom 1, .kw .from, .atom 2, .atom 4, .lpar, .kw .select, .atom 1, .rpar] = none ∧
